@@ -119,32 +119,45 @@ pub enum PartCase {
 /// SdesChunkBuilder / SdesItemBuilder have their own `write_into` but a private size function,
 /// so n is learnt from `write_into(&mut [])`.
 fn observe_part(p: &PartCase) -> BuildObs {
-    let write = |buf: &mut [u8]| -> Result<Result<usize, WErr>, Caught> {
+    enum Part<'a> {
+        Chunk(rtcp_types::SdesChunkBuilder<'a>),
+        Item(rtcp_types::SdesItemBuilder<'a>),
+        Fci(FciHolder<'a>),
+    }
+    fn make(p: &PartCase) -> Part<'_> {
         match p {
-            PartCase::Chunk(c) => {
-                let b = chunk(c);
+            PartCase::Chunk(c) => Part::Chunk(chunk(c)),
+            PartCase::Item(i) => Part::Item(item(i)),
+            PartCase::Fci(f) => Part::Fci(fci(f)),
+        }
+    }
+    fn write_one(b: &Part<'_>, buf: &mut [u8]) -> Result<Result<usize, WErr>, Caught> {
+        match b {
+            Part::Chunk(b) => {
                 step("SdesChunkBuilder::write_into");
                 guard(|| werr(b.write_into(buf)))
             }
-            PartCase::Item(i) => {
-                let b = item(i);
+            Part::Item(b) => {
                 step("SdesItemBuilder::write_into");
                 guard(|| werr(b.write_into(buf)))
             }
-            PartCase::Fci(f) => {
-                let h = fci(f);
+            Part::Fci(h) => {
                 step("FCI builder::write_into");
                 guard(|| werr(h.write_into(buf)))
             }
         }
-    };
-    let probe = write(&mut []);
+    }
+    // one builder object for all the writes below (the second use of an object: whatever it remembers from a
+    // failed or an earlier write must not show), or a fresh one per write - chosen by the announced size
+    let shared = make(p);
+    let probe = write_one(&shared, &mut []);
     let size = match &probe {
         Ok(Err(WErr::OutputTooSmall(n))) => Ok(Ok(*n)),
         Ok(Ok(n)) => Ok(Ok(*n)),
         Ok(Err(e)) => Ok(Err(e.clone())),
         Err(c) => Err(c.clone()),
     };
+    let reuse = matches!(&size, Ok(Ok(n)) if (n / 4) % 2 == 0);
     let lens: Vec<usize> = match &size {
         Ok(Ok(n)) if *n <= 600 => (0..=n + 8).collect(),
         Ok(Ok(n)) => vec![0, 1, n - 1, *n, n + 1, n + 8],
@@ -153,7 +166,7 @@ fn observe_part(p: &PartCase) -> BuildObs {
     let mut writes = Vec::new();
     for l in lens {
         let mut buf = prefill(l, l % 2 == 0);
-        let result = write(&mut buf);
+        let result = if reuse { write_one(&shared, &mut buf) } else { write_one(&make(p), &mut buf) };
         writes.push(WriteObs { buf_len: l, which: l % 2 == 0, result, after: buf });
     }
     BuildObs { size, get_padding: Ok(None), writes }
